@@ -296,7 +296,7 @@ def conformance_stage(kind, variant, params):
         if kind == 'random':
             args = ['random', '--seed', str(params['seed']), '--runs', str(params['runs']), '--ops', str(params['ops']),
                     '--faultp', str(params.get('faultp', 0)), '--ns', str(params.get('ns', 2)), '--np', str(params.get('np', 1)),
-                    '--nw', str(params.get('nw', 1)), '--maxobjs', str(params.get('maxobjs', 10)), '--auto', str(params.get('auto', 0)), '--clean', str(params.get('clean', 0)),
+                    '--par', str(params.get('par', 1)), '--nw', str(params.get('nw', 1)), '--maxobjs', str(params.get('maxobjs', 10)), '--auto', str(params.get('auto', 0)), '--clean', str(params.get('clean', 0)),
                     '--out', trace]
         elif kind == 'script':
             args = ['script', '--in', os.path.join(VERIF, params['file']), '--out', trace]
@@ -355,12 +355,60 @@ def conformance_stage(kind, variant, params):
             v['signature'] = history_signature(beh)
             v['variant'] = variant
             v['source'] = kind
+            v['par'] = bool(params.get('par', 1) > 1) if isinstance(params, dict) else False
         res['violations'] = viols
         # keep a small sample of the trace as evidence, drop the bulk
         with open(trace) as fh:
             import itertools
             sample = [json.loads(l) for l in itertools.islice(fh, 12)]
         res['sample'] = sample
+        os.unlink(trace)
+        return res
+
+    return stage(key, run)
+
+
+def threads_stage(variant, tier):
+    """C19: TLC enumerates the schedules (spec/Threads.tla, invariant Independent), real threads replay them with a
+    baton, every thread's trace is validated by the single-thread contract monitor."""
+    key = ['threads', variant, tier]
+
+    def run(d):
+        rc, out = tlc('Threads.tla', 'Threads_%s.cfg' % tier, d, workers=4, heap='4g', timeout=1200)
+        txt = open(out, errors='replace').read()
+        if 'No error has been found' not in txt:
+            raise ToolError('Threads.tla failed:\n' + txt[-2000:])
+        m = re.search(r'(\d+) states generated, (\d+) distinct states found', txt)
+        sched = os.path.join(d, 'schedules.ndjson')
+        n = 0
+        with open(sched, 'w') as fh:
+            for line in txt.splitlines():
+                if line.startswith('<<"TS", "'):
+                    fh.write(line[len('<<"TS", "'):-3].encode('utf-8').decode('unicode_escape') + '\n')
+                    n += 1
+        with open(out, 'w') as fh:
+            fh.write('\n'.join(l for l in txt.splitlines() if not l.startswith('<<"TS"'))[-20000:])
+        trace = os.path.join(d, 'trace.ndjson')
+        rep = run_harness(variant, ['threads', '--in', sched, '--out', trace])
+        res = {'kind': 'threads', 'variant': variant, 'params': {'tier': tier}, 'harness': rep, 'violations': [], 'events': 0, 'runs': 0,
+               'states': int(m.group(2)) if m else 0, 'transitions': int(m.group(1)) if m else 0, 'schedules': n}
+        if rep.get('crash'):
+            res['crash'] = True
+            return res
+        if rep.get('late_double_frees'):
+            res['violations'].append({'run': 0, 'prop': 'C19', 'msg': 'an allocation was released twice during thread teardown', 'n': 0, 'faulted': False, 'resur': False,
+                                      'behaviour': [], 'signature': 'teardown', 'variant': variant, 'source': 'threads'})
+        viols, events, nruns = validate_trace(trace, d, 'v')
+        res['events'], res['runs'] = events, nruns
+        for v in viols:
+            v['behaviour'] = extract_run(trace, v['run'])
+            v['signature'] = history_signature(v['behaviour'])
+            v['variant'] = variant
+            v['source'] = 'threads'
+        res['violations'] += viols
+        import itertools
+        with open(sched) as fh:
+            res['sample'] = [json.loads(l) for l in itertools.islice(fh, 3)]
         os.unlink(trace)
         return res
 
@@ -523,6 +571,9 @@ DERIVED = {
 def attributed(v, pid):
     if v['prop'] == pid:
         return True
+    # C19's oracle is the single-thread contract with exact counters on every thread of a multi-thread run
+    if pid == 'C19' and (v.get('source') == 'threads' or v.get('par')):
+        return True
     if pid in DERIVED:
         base, flag = DERIVED[pid]
         return v['prop'] in base and v.get(flag)
@@ -577,6 +628,9 @@ def run_check(pid, tier, seed):
         if k == 'ptr':
             log('conformance ptr', v)
             return ptr_stage(v)
+        if k == 'threads':
+            log('conformance threads', v)
+            return threads_stage(v, tier)
         log('conformance', k, v, {x: y for x, y in p.items() if x != 'file'} if k != 'script' else p)
         return conformance_stage(k, v, p)
     with cf.ThreadPoolExecutor(max_workers=3) as ex:
@@ -610,7 +664,7 @@ def run_check(pid, tier, seed):
         out_lines.append('VIOLATION property=%s replay=%s' % (pid, path))
         out_lines.append('  clause %s: %s (build %s, %s, event %s%s)' % (v['prop'], v['msg'], v.get('variant'), v.get('source'), v.get('n'), ', after a caught panic' if v.get('faulted') else ''))
         nviol += 1
-    if pid in ('C01', 'C03', 'C07'):
+    if pid in ('C01', 'C03', 'C07', 'C19'):
         for c in crashes:
             path = os.path.join(REPLAYS, '%s-crash-%s.json' % (pid, hashlib.sha256(json.dumps(c['params'], sort_keys=True).encode()).hexdigest()[:10]))
             os.makedirs(REPLAYS, exist_ok=True)
